@@ -128,8 +128,8 @@ func reconnectTraces(t *testing.T, h *H) {
 				text string
 			}
 			var (
-				mu      sync.Mutex
-				tevs    []tev
+				mu       sync.Mutex
+				tevs     []tev
 				connects int
 			)
 			synctest.Test(t, func(t *testing.T) {
@@ -254,9 +254,11 @@ func offlineBuffer(t *testing.T, h *H) {
 		tap := newWireTap()
 		synctest.Test(t, func(t *testing.T) {
 			r := newRig(&sio.ServerConfig{ParserCreator: tap.creator()})
-			r.server.OnConnection(func(s sio.ServerSocket) {
+			onAdmission(r.server, func(s sio.ServerSocket) {
 				s.OnEvent("e", func(id int) { mu.Lock(); got = append(got, id); mu.Unlock() })
 				s.OnEvent("ea", func(id int, ack func(int)) { mu.Lock(); got = append(got, id); mu.Unlock(); ack(id) })
+			})
+			r.server.OnConnection(func(s sio.ServerSocket) {
 				if serverAcksEarly {
 					s.Emit("hello", "x", func(string) {})
 				}
@@ -408,10 +410,11 @@ func offlineTimedOut(t *testing.T, h *H) {
 				tap := newWireTap() // order is judged on the wire: handlers run on goroutines of their own (D23)
 				synctest.Test(t, func(t *testing.T) {
 					r := newRig(&sio.ServerConfig{ParserCreator: tap.creator()})
-					r.server.OnConnection(func(s sio.ServerSocket) {
+					onAdmission(r.server, func(s sio.ServerSocket) {
 						s.OnEvent("n", func(v int) { mu.Lock(); got = append(got, v); mu.Unlock() })
 						s.OnEvent("bin", func(v int, bs []sio.Binary, ack func(int)) { mu.Lock(); got = append(got, -v); mu.Unlock(); ack(v) })
 					})
+					r.server.OnConnection(func(s sio.ServerSocket) {})
 					m := r.manager([]string{tr}, &sio.ManagerConfig{NoReconnection: true})
 					c := m.Socket("/", nil)
 					over := false
